@@ -249,6 +249,11 @@ type z15Scenario struct {
 	Redirect bool `json:"redirect,omitempty"`
 	// LoadFail: the runners the requests start die while loading
 	LoadFail bool `json:"load_fail,omitempty"`
+	// Extra: models in the store besides a and b (each from a file of its own)
+	Extra []string `json:"extra,omitempty"`
+	// CPU: no GPU; the scheduler then admits a further model as long as system memory lasts (the harness's tiny
+	// model files have no layers, so on a GPU they never "fit completely" next to another model)
+	CPU bool `json:"cpu,omitempty"`
 }
 
 func z15Body(sc z15Scenario) func() {
@@ -279,6 +284,9 @@ func z15Body(sc z15Scenario) func() {
 		sched := InitScheduler(ctx)
 		gpu := discover.GpuInfo{Library: "metal", ID: "0"}
 		gpu.TotalMemory, gpu.FreeMemory = 1<<40, 1<<40
+		if sc.CPU {
+			gpu.Library = "cpu"
+		}
 		sched.getGpuFn = func() discover.GpuInfoList { return discover.GpuInfoList{gpu} }
 		sched.getCpuFn = sched.getGpuFn
 		sched.newServerFn = func(gpus discover.GpuInfoList, model string, f *ggml.GGML, adapters []string, projectors []string, opts api.Options, numParallel int) (llm.LlamaServer, error) {
@@ -288,7 +296,7 @@ func z15Body(sc z15Scenario) func() {
 				name = string(m)
 			}
 			// model name from the request that loads it: find by model path in the store
-			for _, n := range []string{"a", "b"} {
+			for _, n := range []string{"a", "b", "e"} {
 				if mm, err := GetModel(n); err == nil && mm.ModelPath == model {
 					name = n
 				}
@@ -303,7 +311,7 @@ func z15Body(sc z15Scenario) func() {
 		sched.Run(ctx)
 		// store: two models (different files so that they are different runners)
 		zz := &z12World{ztWorld: zw}
-		for i, n := range []string{"a", "b"} {
+		for i, n := range append([]string{"a", "b"}, sc.Extra...) {
 			d := z4GGUF(zz, i+1)
 			if code, body := w.call("POST", "/api/create", api.CreateRequest{Model: n, Files: map[string]string{"m.gguf": d}, Stream: &z15Stream}); code != 200 {
 				mcrt.Fail("C15: setup create failed: %d %s", code, body)
@@ -356,6 +364,12 @@ func z15Scenarios(thorough bool) []z15Scenario {
 		{Name: "generate-gone|generate", Reqs: []z15Req{{Kind: "generate-gone", A: "a"}, {Kind: "generate", A: "a"}}},
 		{Name: "generate|generate", Reqs: []z15Req{{Kind: "generate", A: "a"}, {Kind: "generate", A: "a"}}},
 		{Name: "generate-a|generate-b max1", Env: map[string]string{"OLLAMA_MAX_LOADED_MODELS": "1"}, Reqs: []z15Req{{Kind: "generate", A: "a"}, {Kind: "generate", A: "b"}}},
+		// three models, room for two: the request for the third has to pick a victim (sorts the loaded runners by
+		// keep-alive) while another request / ps touches the same runners
+		{Name: "generate-e|generate-a max2", Cap: 2, Extra: []string{"e"}, Env: map[string]string{"OLLAMA_MAX_LOADED_MODELS": "2"}, Loaded: []string{"a", "b"}, Reqs: []z15Req{{Kind: "generate", A: "e"}, {Kind: "generate", A: "a"}}},
+		{Name: "generate-e|unload-a max2 cpu", CPU: true, Cap: 2, Extra: []string{"e"}, Env: map[string]string{"OLLAMA_MAX_LOADED_MODELS": "2"}, Loaded: []string{"a", "b"}, Reqs: []z15Req{{Kind: "generate", A: "e"}, {Kind: "unload", A: "a"}}},
+		{Name: "generate-e|generate-a max2 cpu", CPU: true, Cap: 2, Extra: []string{"e"}, Env: map[string]string{"OLLAMA_MAX_LOADED_MODELS": "2"}, Loaded: []string{"a", "b"}, Reqs: []z15Req{{Kind: "generate", A: "e"}, {Kind: "generate", A: "a"}}},
+		{Name: "generate-e|ps max2 cpu", CPU: true, Cap: 2, Extra: []string{"e"}, Env: map[string]string{"OLLAMA_MAX_LOADED_MODELS": "2"}, Loaded: []string{"a", "b"}, Reqs: []z15Req{{Kind: "generate", A: "e"}, {Kind: "ps"}}},
 		{Name: "chat|unload", Loaded: []string{"a"}, Reqs: []z15Req{{Kind: "chat", A: "a"}, {Kind: "unload", A: "a"}}},
 		{Name: "embed|ps", Reqs: []z15Req{{Kind: "embed", A: "a"}, {Kind: "ps"}}},
 		{Name: "generate-loadfail|ps", LoadFail: true, Reqs: []z15Req{{Kind: "generate", A: "a"}, {Kind: "ps"}}},
@@ -576,10 +590,10 @@ func ZZVerifC15() {
 			sub.NotExhaustive("time budget reached in " + item)
 		}
 	})
-	r.Rule("for each pair (thorough: also triples) of concurrent API requests on one real Server (real Scheduler loops and timers, real store on the controlled FS, mock runner, fake registry) every schedule within the deviation bounds; in every execution a vector-clock happens-before detector checks all accesses to the designated shared locations (Scheduler.loaded, the runnerRef fields, blobDownload/blobUpload result fields, intermediateBlobs), panics in any goroutine and gin-recovered handler panics are captured, and every model /api/ps lists must have had a live runner at some instant of the ps request. Non-trivial = distinct observation logs.")
+	r.Rule("for each pair (thorough: also triples) of concurrent API requests on one real Server (real Scheduler loops and timers, real store on the controlled FS, mock runner, fake registry) every schedule within the deviation bounds; in every execution a vector-clock happens-before detector checks every access package server makes, in statements of its own, to a field of a struct type it declares or to one of its package-level variables (locations of sync / atomic / channel / context types excepted: they are scheduling points with clocks of their own), and reports conflicting accesses that are unordered or ordered only through the acquisition order of a lock the two do not share; panics in any goroutine and gin-recovered handler panics are captured, and every model /api/ps lists must have had a live runner at some instant of the ps request. Non-trivial = distinct observation logs.")
 	r.Extra("bounds", fmt.Sprintf("%s; total deviations <= %d (scenarios with quick_total_cap: that value in the quick tier)", bounds.String(), total))
 	r.Extra("scenarios", names)
-	r.Assume("races are reported for the designated locations (the state listed in the property's anchors); other memory is covered only by the panic and torn-view monitors",
+	r.Assume("races are reported for package server's own state (fields of its struct types, its package variables; element accesses a[i].f / m[k].f included); memory behind values of other packages' types (api.Options contents, gin contexts, maps and slices reached through a local copy of the header) is covered only by the panic and torn-view monitors",
 		"request contexts end when the handler returns, as under net/http")
 	r.Finish()
 }
